@@ -114,6 +114,32 @@ def _work(units):
                                        "why": f"after editing the weights to {t}:{10 - t} on the same evaluator, unit {uid} is not where its hash position {float(k):.6f} puts it"})  # fmt: skip
                         break
             continue
+        if u[0] == "relabel":
+            # the same weights under unique labels and under repeated / look-alike labels: the ENTRY a unit gets (by
+            # position) must be the same, whatever the labels say
+            _, v, labels, ids = u
+            uniq = observe(acc, v, ids)
+            ast = ("prog", "e", None, ("uid",), ("ret", tuple(zip(labels, v))))
+            text = rp.render(ast)
+            b = impl.build(text)
+            acc.add("programs")
+            if uniq is None or b[0] != "ok":
+                if b[0] != "ok":
+                    acc.violation({"kind": "pos:build", "sub": "build", "text": text, "observed": list(b)})
+                continue
+            from .. import oracle
+
+            for uid in ids:
+                acc.add("evaluations")
+                r = impl.call(b[1], {"uid": uid})
+                g = uniq.get(uid)
+                if g is None:
+                    continue
+                if r[0] != "ok" or not oracle.same_value(r[1], labels[g]):
+                    acc.violation({"kind": "pos:relabel", "sub": "eval", "text": text, "id": enc(uid), "vector": list(v), "labels": enc(list(labels)), "observed": short(repr(r)),
+                                   "why": f"with unique labels unit {uid!r} gets entry #{g} of weights {list(v)}; with labels {list(labels)!r} it gets {r!r}, not entry #{g}'s label {labels[g]!r}"})  # fmt: skip
+                    break
+            continue
         if u[0] == "seam":
             # the position is GIVEN (first 32 digest bits substituted): every vector's group must contain it
             from .. import seam
@@ -163,6 +189,10 @@ def run(res, tier):
     seam_vs += [v for _k, v in _c03.crafted_vectors()]  # boundary a quarter grid point after a chosen position, exact in binary64
     units += [("seam", v) for v in seam_vs]
     units.append(("url-ramp",))
+    RELABEL = list(_c03.REPEATS) + [(["10", "80", "10"], ["new", "old", "new"]), (["1", "8", "1"], ["new", "old", "new"]), (["10", "90"], ["new", "old"]), (["1", "1", "1"], ["b", "a", "b"]),
+                                    (["3", "1", "2", "1"], ["x", "y", "z", "y"]), (["1", "2", "3", "4", "5", "6"], ["a", "b", "c", "c", "b", "a"]), (["1"] * 12, list("abcabcabcabc")),
+                                    (["1", "1", "1"], [1, "1", 1.0]), (["5", "0", "5"], ["k", "k", "k"])]
+    units += [("relabel", v, labels, ids[:256]) for v, labels in RELABEL]
     merged = {}
     for w in pmap(_work, permuted(units, "c10"), chunk=12):
         pos = w.pop("pos")
@@ -287,6 +317,11 @@ def replay(data):
         from . import c03
 
         return c03.replay(dict(data, kind=k[len("pos:seam-"):]))
+    if k == "pos:relabel":
+        from ..common import dec as _dec
+
+        r = _work([("relabel", data["vector"], _dec(data["labels"]), [u])])
+        return bool(r["viol"]), (r["viol"][0].get("why", "build failure") if r["viol"] else "the entry does not depend on the labels")
     if k == "pos:edited":
         r = _work([("url-ramp",)])
         return bool(r["viol"]), (r["viol"][0].get("why", "recompile raised") if r["viol"] else "every step follows the weights last given")
